@@ -137,7 +137,8 @@ FamOne ==
      /\ Row("notevery", s, <<>>, 0, NoKW, "bool", ~\A i \in 1..Len(s) : s[i] % 2 = 1)
      /\ Row("map1+", s, <<>>, 0, NoKW, "seq", [i \in 1..Len(s) |-> s[i] + 1])
      /\ \A fe \in BOOLEAN : Row("reduce-", s, <<>>, 10, KW(None, None, fe, None, "id", "eql"), "int",
-                                 Opt(IF fe THEN ReduceR(s, 10, Len(s)) ELSE Reduce(s, 10, 1)))
+                                 \* always a number (it can be -1, the value Opt takes for "none")
+                                 [none |-> FALSE, v |-> IF fe THEN ReduceR(s, 10, Len(s)) ELSE Reduce(s, 10, 1)])
      /\ \A t \in Seqs(2) :
           /\ Row("concatenate", s, t, 0, NoKW, "seq", s \o t)
           /\ Row("map+", s, t, 0, NoKW, "seq", [i \in 1..(IF Len(s) < Len(t) THEN Len(s) ELSE Len(t)) |-> s[i] + t[i]])
